@@ -295,6 +295,7 @@ class Executor:
         self.outputs = []
         self.last_aborted = False
         self.tainted = set()
+        self.failed_ctx = set()  # contexts on which some request failed half-way (for whatever reason)
         self.ctx_params = {}
         self.pos = 0
 
@@ -366,6 +367,7 @@ class Executor:
                 req = self.reqs.get(inner[1]) if len(inner) > 1 else None
                 if req is not None:
                     req["stage"] = "dead"
+                    self.failed_ctx.add(req["cid"])
                 self.bump(self.stats, "deep_request_ran_out_of_stack")
                 return None
         fa = self.fa
@@ -480,7 +482,8 @@ class Executor:
                 req["prints"] = req.get("prints", 0) + 1
                 rec = dict(key=req_key(req, debug) + (":raw" if raw else ""), tag=tag, rid=req["rid"], cid=req["cid"], prior=req["prior"],
                            rep=req["prints"], pos=self.pos, sha=hashlib.sha256(text.encode()).hexdigest(), env=self.env.active,
-                           after_abort=self.last_aborted, tmp_counter=tmp_before, target=req["target"], debug=debug)
+                           after_abort=self.last_aborted, tmp_counter=tmp_before, target=req["target"], debug=debug,
+                           ctx_had_failure=req["cid"] in self.failed_ctx or req["cid"] in self.tainted)
                 self.last_aborted = False
                 if req.get("topdown"):
                     # rewritten top-down: part of the history of everything that follows, but its own text is a
@@ -514,7 +517,7 @@ class Executor:
                 # e.g. a kind or a dtype the other target does not know: no text, nothing to check
                 self.bump(self.stats, "reprint_failed:" + type(e).__name__)
             if box and isinstance(box[0], str):
-                rec = dict(key=req_key(req, debug) + ":as=" + t2, tag="bg", rid=req["rid"], cid=req["cid"], prior=req["prior"],
+                rec = dict(key=req_key(req, debug) + ":as=" + t2, tag="history-only" if req.get("topdown") else "bg", rid=req["rid"], cid=req["cid"], prior=req["prior"],
                            rep=req.get("prints", 0) + 1, pos=self.pos, sha=hashlib.sha256(box[0].encode()).hexdigest(),
                            env=self.env.active, after_abort=False, tmp_counter=None, target=t2, debug=debug)
                 self.bump(self.probes, "graph_printed_with_second_target")
@@ -543,11 +546,13 @@ class Executor:
             # context (see conssim note); a user continuing after Ctrl-C sees the same
         except NotImplementedError as e:
             req["stage"] = "dead"
+            self.failed_ctx.add(req["cid"])
             self.last_aborted = True
             self.bump(self.faults, "aborted:NotImplementedError")
             self.log.ev("notimpl", req["rid"])
         except Exception as e:
             req["stage"] = "dead"
+            self.failed_ctx.add(req["cid"])
             self.log.ev("failed", req["rid"], type(e).__name__)
             if isinstance(e, OSError) and self.env.active is not None:
                 # a formatter / tmpdir fault may legitimately fail the request
